@@ -299,14 +299,28 @@ theorem seqG_insert_sim {f f' : Str × Json → Gen} (hf : ∀ kv, Sim (f kv) (f
 
 /-! ### one layer of `iter_errors` -/
 
-theorem scopeOf_insert (cfg : Cfg) {key : Str} (hid : key ≠ cfg.idKey) (v : Json)
+theorem hasKey_insert {c key : Str} (h : c ≠ key) (v : Json) (pre post : List (Str × Json)) :
+    Json.hasKey c (pre ++ (key, v) :: post) = Json.hasKey c (pre ++ post) := by
+  unfold Json.hasKey
+  rw [lookup_insert h]
+
+/-- inserting a key other than `$ref` leaves the scope alone when the key is not the id key -/
+theorem scopeOf_insert (cfg : Cfg) {key : Str} (hid : key ≠ cfg.idKey) (href : key ≠ skey "$ref") (v : Json)
     (pre post : List (Str × Json)) :
     scopeOf cfg (pre ++ (key, v) :: post) = scopeOf cfg (pre ++ post) := by
   unfold scopeOf
-  rw [lookup_insert (fun e => hid e.symm)]
+  rw [lookup_insert (fun e => hid e.symm), hasKey_insert (fun e => href e.symm)]
+
+/-- … or when a `$ref` key is present (no scope either way) -/
+theorem scopeOf_insert_of_ref (cfg : Cfg) {key : Str} (href : key ≠ skey "$ref") (v : Json)
+    (pre post : List (Str × Json)) (hr : Json.hasKey (skey "$ref") (pre ++ post) = true) :
+    scopeOf cfg (pre ++ (key, v) :: post) = scopeOf cfg (pre ++ post) := by
+  unfold scopeOf
+  rw [hasKey_insert (fun e => href e.symm), if_pos hr, if_pos hr]
 
 theorem evalStep_sim_of_body (env : Env) (impl : FmtImpl) (cfg : Cfg) (rec : Rec) (inst : Json)
-    {key : Str} (hid : key ≠ cfg.idKey) (v : Json) (pre post : List (Str × Json))
+    {key : Str} (v : Json) (pre post : List (Str × Json))
+    (hsc : scopeOf cfg (pre ++ (key, v) :: post) = scopeOf cfg (pre ++ post))
     (hbody : Sim (schemaBody env impl cfg rec inst (pre ++ (key, v) :: post))
                  (schemaBody env impl cfg rec inst (pre ++ post))) :
     Sim (evalStep env impl cfg rec inst (.obj (pre ++ (key, v) :: post)))
@@ -317,7 +331,7 @@ theorem evalStep_sim_of_body (env : Env) (impl : FmtImpl) (cfg : Cfg) (rec : Rec
            (match scopeOf cfg (pre ++ post) with
             | .ok scope => withScopeOpt env scope (schemaBody env impl cfg rec inst (pre ++ post))
             | .error cls => crashG cls)
-  rw [scopeOf_insert cfg hid]
+  rw [hsc]
   cases scopeOf cfg (pre ++ post) with
   | error cls => exact Sim.refl _
   | ok scope => exact Sim.withScopeOpt env scope hbody
@@ -334,7 +348,7 @@ theorem evalStep_unknown_sim (env : Env) (impl : FmtImpl) (cfg : Cfg) (rec : Rec
       (seqG (runKeyword env impl cfg rec inst (.obj (pre ++ post))) (pre ++ post)) :=
     seqG_insert_sim (fun kv => runKeyword_sim env impl cfg rec inst _ _ kv hs) key v
       (runKeyword_unknown env impl cfg rec inst _ key v hk) post pre
-  refine evalStep_sim_of_body env impl cfg rec inst hid v pre post ?_
+  refine evalStep_sim_of_body env impl cfg rec inst v pre post (scopeOf_insert cfg hid href v pre post) ?_
   unfold schemaBody
   rw [lookup_insert (fun e => href e.symm)]
   split
@@ -342,17 +356,19 @@ theorem evalStep_unknown_sim (env : Env) (impl : FmtImpl) (cfg : Cfg) (rec : Rec
   · exact runKeyword_sim env impl cfg rec inst _ _ _ hs
   · exact hloop
 
-/-- **keys next to a non-null `$ref` are inert**, provided the function bound to `$ref` does not
+/-- **keys next to a non-null `$ref` are inert** (the id key included: with a `$ref` key present no
+    scope is pushed), provided the function bound to `$ref` does not
     read sibling keywords (or the inserted key is not one that any function reads) -/
 theorem evalStep_refSibling_sim (env : Env) (impl : FmtImpl) (cfg : Cfg) (rec : Rec)
     (pre post : List (Str × Json)) (key : Str) (v ref inst : Json)
-    (hid : key ≠ cfg.idKey) (hkey : key ≠ skey "$ref")
+    (hkey : key ≠ skey "$ref")
     (href : Json.lookup (skey "$ref") (pre ++ post) = some ref) (hnn : ref ≠ .null)
     (hfn : (∀ f, lookupS (skey "$ref") cfg.keywords = some f → f.readsSiblings = false)
             ∨ key ∉ Spec.consulted) :
     Sim (evalStep env impl cfg rec inst (.obj (pre ++ (key, v) :: post)))
         (evalStep env impl cfg rec inst (.obj (pre ++ post))) := by
-  refine evalStep_sim_of_body env impl cfg rec inst hid v pre post ?_
+  refine evalStep_sim_of_body env impl cfg rec inst v pre post
+    (scopeOf_insert_of_ref cfg hkey v pre post (by unfold Json.hasKey; rw [href]; rfl)) ?_
   unfold schemaBody
   rw [lookup_insert (fun e => hkey e.symm), href]
   split
@@ -388,7 +404,6 @@ def key : Str := skey "exclusiveMinimum"
 def five : Json := .num (.int 5)
 def post : List (Str × Json) := [(skey "$ref", five)]
 
-theorem hid : key ≠ cfg.idKey := by decide +kernel
 theorem hkey : key ≠ skey "$ref" := by decide +kernel
 theorem href : Json.lookup (skey "$ref") ([] ++ post) = some five := by decide +kernel
 theorem hnn : five ≠ .null := by decide +kernel
